@@ -8,7 +8,7 @@ from decimal import Decimal
 from fractions import Fraction
 
 from . import tlc
-from .common import VERIF, Check, frac, unq
+from .common import VERIF, Check, close, frac, unq
 
 SPEC = VERIF / "spec" / "mc" / "MC_Wallet.tla"
 
@@ -77,9 +77,179 @@ def replay(states, owner):
     return counts, viols, len(hist)
 
 
+# ---- Broker.swap_by_from / swap_by_to (MC_WalletSwap) -----------------------------------------------------------------
+SWAP_SPEC = VERIF / "spec" / "mc" / "MC_WalletSwap.tla"
+PX = [None, {"usdc": Fraction(1), "eth": Fraction(2000)}, {"usdc": Fraction(19, 20), "eth": Fraction(1600)}]
+REL = Fraction(1, 10 ** 30)      # Decimal divisions at 35 significant digits (tolerance table of DESIGN 2.3)
+
+
+def replay_swap(states, owner):
+    """One behaviour of MC_WalletSwap against a real Broker.  -> (counts, violations, steps)"""
+    from . import sim  # noqa: F401
+    import pandas as pd
+    from demeter import Broker, TokenInfo
+    toks = {"usdc": TokenInfo("usdc", 6), "eth": TokenInfo("eth", 18)}
+    acts = []
+    b = Broker(record_action_callback=acts.append)
+    w0 = states[0]["st"]["w"]
+    for t, v in w0.items():
+        b.set_balance(toks[t], dec(v))
+    counts, viols, hist = {}, [], []
+
+    def c(k, n=1):
+        counts[k] = counts.get(k, 0) + n
+    for i, s in enumerate(states[1:]):
+        ev, out = s["last"]["ev"], s["last"]["out"]
+        a = dec(ev["a"])
+        if frac(a) != ev["a"]:
+            break               # not representable as a Decimal argument
+        px = PX[ev["px"]]
+        prices = pd.Series({toks[t].name: dec(v) for t, v in px.items()})
+        before = {t: frac(b.get_token_balance(toks[t])) for t in toks}
+        n0 = len(acts)
+        try:
+            if ev["op"] == "add":
+                b.add_to_balance(toks[ev["t"]], a)
+            elif ev["op"] == "sub":
+                b.subtract_from_balance(toks[ev["t"]], a)
+            elif ev["op"] == "swapf":
+                b.swap_by_from(toks[ev["t"]], toks[ev["to"]], a, prices, dec(ev["fee"]))
+            else:
+                b.swap_by_to(toks[ev["t"]], toks[ev["to"]], a, prices, dec(ev["fee"]))
+            got = "ok"
+        except Exception as e:
+            got = "reject"
+        after = {t: frac(b.get_token_balance(toks[t])) for t in toks}
+        hist.append(f"{ev['op']}({ev['t']}->{ev['to']}, {a}, px{ev['px']}, fee {ev['fee']})->{got}")
+        rep = {"kind": "wallet_swap_path", "owner": owner, "w0": {t: str(v) for t, v in w0.items()},
+               "events": [{**{k: x["last"]["ev"][k] for k in ("op", "t", "to", "px")}, "a": str(x["last"]["ev"]["a"]), "fee": str(x["last"]["ev"]["fee"])}
+                          for x in states[1:i + 2]]}
+        swap = ev["op"] in ("swapf", "swapt")
+        val = lambda w: sum(w[t] * px[t] for t in toks)
+        if owner == "C04":
+            c("C04/wallet/rejected_swap_leaves_wallet_and_log", int(got == "reject"))
+            if got == "reject" and (after != before or len(acts) != n0):
+                viols.append(("Broker.swap|reject_intact|wallet", f"after {' ; '.join(hist)}: raised but balances {before} -> {after}, "
+                              f"{len(acts) - n0} action record(s) added", rep))
+                break
+        if owner == "C03":
+            c("C03/wallet/swap_value_and_sign")
+            if any(v < 0 for v in after.values()):
+                viols.append(("Broker.swap|negative_holding|wallet", f"after {' ; '.join(hist)}: balances {after}", rep))
+                break
+            dust = Fraction(1001, 10 ** 8) * before[ev["t"]] * px[ev["t"]]
+            gain = val(after) - val(before)
+            if got == "reject" and gain > 0:
+                viols.append(("Broker.swap|value_created|wallet", f"after {' ; '.join(hist)}: a raised call raised the value by {float(gain)!r}", rep))
+                break
+            if swap and got == "ok":
+                if len(acts) != n0 + 1:
+                    viols.append(("Broker.swap|swap_loses_reported_fee|wallet", f"after {' ; '.join(hist)}: {len(acts) - n0} action records for one swap", rep))
+                    break
+                fee = frac(acts[-1].fee) * px[ev["t"]]          # reported in the "from" token
+                loss = -gain
+                tol = REL * max(val(before), Fraction(1))
+                if loss < fee - dust - tol or loss > fee + tol:
+                    viols.append(("Broker.swap|swap_loses_reported_fee|wallet",
+                                  f"after {' ; '.join(hist)}: the wallet's value at the prices of the swap fell by {float(loss)!r}, the reported fee is worth "
+                                  f"{float(fee)!r} (dust forgiven by the debit at most {float(dust)!r})", rep))
+                    break
+        # conformance with the spec state (amounts of the swap, balances); owned by C03 (the swap rule), counted elsewhere
+        spec_w = s["st"]["w"]
+        dev = got != out or any(not close(after[t], spec_w[t], REL) for t in toks)
+        if not dev and swap and got == "ok":
+            r = s["last"]["r"]
+            act = acts[-1]
+            dev = not (close(frac(act.from_amount), r[0], REL) and close(frac(act.to_amount), r[1], REL) and close(frac(act.fee), r[2], REL)
+                       and act.from_token == toks[ev["t"]] and act.to_token == toks[ev["to"]])
+        if dev:
+            if owner == "C03":
+                viols.append(("Broker.swap|wallet_follows_swap_rule|wallet",
+                              f"after {' ; '.join(hist)}: code {got} balances { {t: float(v) for t, v in after.items()} }, specification {out} "
+                              f"balances { {t: float(v) for t, v in spec_w.items()} }", rep))
+            else:
+                c("other/C03/wallet_follows_swap_rule")
+            break
+    return counts, viols, len(hist)
+
+
+def spec_swap_states(r):
+    """Expected side of a stored swap path, recomputed by the rule of Wallet!BSwapFrom / BSwapTo (exact rationals)."""
+    dust = Fraction(5902958103587057, 590295810358705651712)
+    w = {t: Fraction(v) for t, v in r["w0"].items()}
+    states = [{"st": {"w": dict(w)}}]
+
+    def wsub(bal, a):
+        base = bal if bal != 0 else a
+        if base == 0:
+            return True, bal
+        if abs((bal - a) / base) < dust:
+            return True, Fraction(0)
+        if bal - a < 0:
+            return False, bal
+        return True, bal - a
+    for e in r["events"]:
+        a, fee, px = Fraction(e["a"]), Fraction(e["fee"]), PX[e["px"]]
+        out, res = "ok", ()
+        if e["op"] == "add":
+            w[e["t"]] += a
+        elif e["op"] == "sub":
+            ok, nb = wsub(w[e["t"]], a)
+            out = "ok" if ok else "reject"
+            w[e["t"]] = nb
+        else:
+            if not (0 <= fee < 1):
+                out, res = "reject", (Fraction(0),) * 3
+            else:
+                if e["op"] == "swapf":
+                    fa, ta = a, a * px[e["t"]] * (1 - fee) / px[e["to"]]
+                else:
+                    fa, ta = a * px[e["to"]] / (1 - fee) / px[e["t"]], a
+                ok, nb = wsub(w[e["t"]], fa)
+                res = (fa, ta, fa * fee)
+                if ok:
+                    w[e["t"]] = nb
+                    w[e["to"]] += ta
+                else:
+                    out = "reject"
+        states.append({"st": {"w": dict(w)}, "last": {"ev": {**e, "a": a, "fee": fee}, "out": out, "r": res}})
+    return states
+
+
+def run_swap(chk: Check, owner: str):
+    quick = chk.tier == "quick"
+    for cfg, inv in (("MC_WalletSwap_dev1.cfg", "Inv_C04_RejectIntact"), ("MC_WalletSwap_dev2.cfg", "Inv_C03_SwapLosesFee")):
+        r = tlc.run(SWAP_SPEC, SWAP_SPEC.parent / cfg, chk.tmp, workers=4, timeout=600)
+        hit = inv in r.violated
+        chk.extra.setdefault("dev_switch_detected", {})["wallet/" + cfg[:-4]] = hit
+        if not hit:
+            raise RuntimeError(f"vacuous: {cfg} does not violate {inv}")
+    res, g = tlc.dump_graph(SWAP_SPEC, SWAP_SPEC.parent / ("MC_WalletSwap_quick.cfg" if quick else "MC_WalletSwap_thorough.cfg"), chk.tmp,
+                            workers=16, timeout=1500)
+    chk.add_tlc(res, "wallet:MC_WalletSwap")
+    chk.spec_violation(res, "MC_WalletSwap")
+    nodes = {k: unq(v) for k, v in g.nodes.items()}
+    paths = g.bfs_paths()
+    rnd = random.Random(chk.seed + 7)
+    budget = 3000 if quick else 40000
+    if len(paths) > budget:
+        paths = rnd.sample(paths, budget)
+    for p in paths:
+        counts, viols, n = replay_swap([nodes[i] for i in p], owner)
+        chk.traces += 1
+        chk.evaluations += n
+        for c, k in counts.items():
+            chk.count(c, k)
+        for sig, what, rep in viols:
+            chk.violation(sig, what, rep)
+    chk.assumptions.append("wallet swaps: Broker.swap_by_from / swap_by_to at the prices handed in (two price vectors, fee rates 0, 0.003, 1/2 and "
+                           "the illegal 1); a swap with a caller-chosen price is outside C03 - the clause is evaluated at the very prices of the call")
+
+
 def run_cross(chk: Check, owner: str):
     if owner not in ("C03", "C04"):
         return
+    run_swap(chk, owner)
     quick = chk.tier == "quick"
     r = tlc.run(SPEC, SPEC.parent / "MC_Wallet_dev.cfg", chk.tmp, workers=4, timeout=600)
     hit = "Inv_C03_Dust" in r.violated
@@ -108,6 +278,13 @@ def run_cross(chk: Check, owner: str):
 
 
 def replay_cross(chk: Check, r: dict):
+    if r.get("kind") == "wallet_swap_path":
+        counts, viols, n = replay_swap(spec_swap_states(r), r["owner"])
+        chk.traces += 1
+        chk.evaluations += n
+        for sig, what, rep in viols:
+            chk.violation(sig, what, rep)
+        return
     states = [{"st": {"w": {t: Fraction(v) for t, v in r["w0"].items()}}}]
     # the expected side is recomputed by the specification's rule (exact rationals), as Wallet!WSub does
     w = dict(states[0]["st"]["w"])
